@@ -197,6 +197,16 @@ func (p *Prog) VerifyFunc(fi *FuncInfo, spec *FuncSpec) (res *FuncResult) {
 		st.vars[rv] = vc.u.Zero(vc.ts.apply(rv.Type()))
 	}
 	vc.results = results
+	// trusted axioms are available in every function
+	for _, a := range p.con.Facts {
+		if a.Kind == "axiom" {
+			aenv := &SpecEnv{vc: vc, st: st, old: st, vars: map[string]Term{}, pkg: vc.pkg}
+			if pk, ok := p.pkgs[a.Pkg]; ok {
+				aenv.pkg = pk.Types
+			}
+			vc.base = append(vc.base, aenv.evalBool(a.Expr))
+		}
+	}
 	vc.entry = st.clone()
 	// preconditions
 	env := vc.specEnv(st, vc.entry)
